@@ -28,9 +28,9 @@ func TestZsimC19(t *testing.T) {
 		Property: "C19", Name: "rotatelogger",
 		Run:     c19Run,
 		Horizon: 24 * 40 * time.Hour,
-		Rule:    "records with unique ids and drawn sizes written through RotateLogger under the daily rule (days 0/1/3) or the size rule (byte limits through the in-package struct, maxBackups 0/1/3), gzip on/off, two delimiters, pre-existing backups of drawn ages, clock advanced by seconds / days between writes; directory inspected after every step at quiescence; non-trivial = at least one rotation happened; distinct = distinct event-log fingerprint",
+		Rule:    "records with unique ids and drawn sizes written through RotateLogger under the daily rule (days 0/1/3) or the size rule (byte limits through the in-package struct, maxBackups 0/1/3), gzip on/off, two delimiters, pre-existing backups of drawn ages, clock advanced by seconds / days between writes; in a third of the runs the writer goroutine takes a second per record (slow disk) and bursts of 3..110 records are queued behind it and inspected one by one as they are worked off; with gzip, in half of the runs compression takes 1.5-4 s so that the next rotation's clean-up overlaps it; directory inspected after every step at quiescence; non-trivial = at least one rotation happened; distinct = distinct event-log fingerprint",
 		Real:    []string{"lib/logx.RotateLogger (worker goroutine, rotate, postRotate goroutine)", "DailyRotateRule", "SizeLimitRotateRule", "gzipFile", "real files (os.*)"},
-		Stub:    []string{"record producer", "calendar: simulated clock (day changes, >= 1s between size rotations)"},
+		Stub:    []string{"record producer", "calendar: simulated clock (day changes, >= 1s between size rotations)", "in slow-compression runs gzipFile is replaced through a seam by an equivalent that waits between writing the .gz and removing the original"},
 	})
 }
 
